@@ -197,3 +197,9 @@ def occ_lemmas_valid():
         'occ-stable-under-append': z3.Implies(j + z3.Length(s) <= z3.Length(b), occ_def(bc, s, j) == occ_def(b, s, j)),
     }
     return goals
+
+
+def ax_occ_nonneg(b, s):
+    """a match starts at an offset >= 0 (all that is known about an abstract pattern's occurrences)"""
+    j = z3.Int(fresh_name('occj'))
+    return z3.ForAll([j], z3.Implies(occ(b, s, j), j >= 0))
